@@ -1859,6 +1859,24 @@ def rule_sym(ctx):
         else:
             r.bad(Finding('C13.sym', k, 'enumeration', '%s enumerates the pairs of the symmetric matrix as %s, expected row-wise upper-triangular order %s'
                           % (k, [c.get(i) for i in range(6)], full[:6]), 'algopy/utils.py', 0))
+    # the entries (ordered index pairs) that go with one vector position must agree between an operation and its pullback: vecsym
+    # stores v[k] into A[i, j] and A[j, i], so the adjoint of v[k] collects Abar[i, j] and Abar[j, i] (an adjoint need not be symmetric)
+    def ordered(ev):
+        d = {}
+        for cnt, pairs in ev:
+            d.setdefault(cnt, set()).update(pairs)
+        return {k: tuple(sorted(v)) for k, v in d.items()}
+    for fwd, bwd in (('vecsym', 'pb_vecsym'), ('UTPM.vecsym', 'pb_vecsym'), ('symvec:F', 'pb_symvec:F')):
+        if unk.get(fwd) or unk.get(bwd) or not fam.get(fwd) or not fam.get(bwd):
+            continue        # reported above
+        a_, b_ = ordered(fam[fwd]), ordered(fam[bwd])
+        if a_ == b_:
+            r.ok(construct='entries:%s/%s' % (fwd, bwd), nontrivial=True, sample='%s and %s touch the same matrix entries per vector position, e.g. %s' % (fwd, bwd, a_.get(1)))
+        else:
+            k_ = next(k for k in sorted(set(a_) | set(b_)) if a_.get(k) != b_.get(k))
+            r.bad(Finding('C13.sym', 'algopy.utpm.utpm:UTPM.' + bwd.split(':')[0], 'entries:%s' % bwd, '%s and %s disagree on the matrix entries that belong to vector '
+                          'position %d: %s vs %s - the adjoint of an entry the forward operation touches is dropped or counted twice'
+                          % (fwd, bwd, k_, a_.get(k_), b_.get(k_)), 'algopy/utpm/utpm.py', 0))
     for u in ('L', 'U'):
         a, b = fam.get('symvec:' + u), fam.get('pb_symvec:' + u)
         if not a or not b or unk.get('symvec:' + u) or unk.get('pb_symvec:' + u):
@@ -1870,7 +1888,7 @@ def rule_sym(ctx):
         else:
             r.bad(Finding('C13.sym', 'algopy.utpm.utpm:UTPM.pb_symvec', 'UPLO=' + u, "pb_symvec and symvec disagree on the entry <-> position map for UPLO='%s': %s vs %s"
                           % (u, b[:4], a[:4]), 'algopy/utpm/utpm.py', 0))
-    r.floor = 7
+    r.floor = 10
     return r
 
 
